@@ -76,7 +76,9 @@ def make_pool(r, kind, n):
     if kind == "str":
         pool = [("str", ""), ("str", "a"), ("str", "a b"), ("str", "a'"), ("str", "a!"), ("str", "'"),
                 ("str", "a\\"), ("str", "a\t"), ("str", "ab"), ("str", "a'b"), ("str", "a~"),
-                ("str", "\uff21"), ("str", "\U0001f600"), ("str", "a\U0001f600"), ("str", "a\uff21"), ("str", "\ue000b"), ("str", "\U00010000")]
+                ("str", "\uff21"), ("str", "\U0001f600"), ("str", "a\U0001f600"), ("str", "a\uff21"), ("str", "\ue000b"), ("str", "\U00010000"),
+                # equivalent spellings are different strings, ordered by their code points
+                ("str", "caf\u00e9"), ("str", "cafe\u0301"), ("str", "\u212b"), ("str", "\u00c5"), ("str", "A\u030a"), ("str", "\ufb01"), ("str", "fi"), ("str", "\u1e69"), ("str", "s\u0323\u0307"), ("str", "s\u0307\u0323")]
     if kind == "bool":
         pool = [("bool", True), ("bool", False), ("bool", True), ("bool", False)]
     if kind == "list":
